@@ -114,35 +114,6 @@ fn run_case(id: u64, c: &Case, seed: u64, f: &mut impl Write) -> (u64, bool, boo
     (n, false, differ)
 }
 
-/// a deterministic machine that never signals and ignores Signal
-fn gen_det_machine(r: &mut GRng) -> MMachine {
-    let mut m = gen_machine(r, false);
-    let ns = m.states.len();
-    for s in m.states.iter_mut() {
-        s.trans.remove("Signal");
-        for v in s.trans.values_mut() {
-            let mut t = v[0].0;
-            if t == SIGNAL {
-                t = r.gen_range(0..ns) as i64;
-            }
-            *v = vec![(t, 16)];
-        }
-        // constant distributions only
-        for d in [
-            &mut s.action.timeout,
-            &mut s.action.duration,
-            &mut s.action.limit,
-            &mut s.ca.dist,
-            &mut s.cb.dist,
-        ] {
-            if d.any || d.vals.len() > 1 {
-                *d = MDist::constant(2);
-            }
-        }
-    }
-    m
-}
-
 fn main() {
     let args: Vec<String> = std::env::args().collect();
     let out = arg(&args, "--out").expect("--out");
